@@ -288,8 +288,8 @@ PROPS['C05'] = {
         J('prog_rel', 'c05.cpp', 'rel', [100000, 6000000], scenario='scheduling_programs', threads=1),
         J('poolstop_asan', 'c05.cpp', 'asan', [40000, 800000], scenario='pool_stop_from_coroutine', threads=1),
         J('poolstop_rel', 'c05.cpp', 'rel', [80000, 2000000], scenario='pool_stop_from_coroutine', threads=1),
-        J('bare_asan', 'c05.cpp', 'asan', [30000, 1500000], scenario='bare_coroutine_programs', threads=1),
-        J('bare_rel', 'c05.cpp', 'rel', [60000, 3000000], scenario='bare_coroutine_programs', threads=1),
+        J('bare_asan', 'c05.cpp', 'asan', [30000, 600000], scenario='bare_coroutine_programs', threads=1),
+        J('bare_rel', 'c05.cpp', 'rel', [60000, 1500000], scenario='bare_coroutine_programs', threads=1),
         J('prog_casan', 'c05.cpp', 'casan', [0, 1500000], scenario='scheduling_programs', threads=1, tiers=(T,)),
         J('prog_crel', 'c05.cpp', 'crel', [0, 3000000], scenario='scheduling_programs', threads=1, tiers=(T,)),
     ],
